@@ -352,7 +352,96 @@ MUTANTS = [
 
 FIXES = """## What the campaign found and changed
 
-(to be written)
+108 one-site mutants: 59 in `cg.py` (check C18; five of them also C07), 26 in `id_star.py` (C07), 23 in `idc_star.py` (C08).  Classes (by the label
+that starts each `why`): dropped operand / condition / filter / guard / argument 32; wrong graph / dict / argument / endpoint / surgery / constant 18; lost
+polarity, negated comparison, `==` vs `is` 10; stale variable 9; dropped statement / early return / dropped raise 7; and <-> or, all -> any 6; off by one /
+needs size 6; iteration order, truthiness, caller's argument, orientation 6; wrong closure / direction / order / set operation 5; swapped arguments / operands /
+return values / representative 4; reverted fixes 3; dead code 2.  By effect: 72 break a property they were run on, 36 are equivalent or outside the property.
+`expect` was fixed before the run; five first guesses were revised after analysis of round 1 (c40, c57,
+i19, i20, d10: the `why` column has the argument).  A run that hits the tool's 900 s limit is listed as `timeout`.
+
+### C18 (module owned by this campaign: strengthened)
+
+* **Round 1** (harness at e0ce07f): of the 30 mutants that break C18, 29 were reported with a concrete replay; **c44 was MISSED silently** (exit 0, not even a
+  correspondence disagreement in 2 852 cases; the pinned suite lets it pass too).  c44 is the twin of seeded/C18a in the world-pair loop: `is_inconsistent`
+  is given the ORIGINAL event, so a value that reached the kept copy V@w1 only through an EARLIER relabelling (V@w3 merged into it) is not seen, the
+  contradiction with V@w2 is missed and one conjunct is overwritten.  It needs three counterfactual worlds whose copies of V are the same variable as EACH
+  OTHER but not as the factual V (the worlds agree on do(ancestor of V) and differ in irrelevant interventions), the event mentioning V in two of them:
+  the random stream (<= 3 random worlds over <= 5 nodes) never produced it, `two_copies_case` produces copies that merge with the FACTUAL node in the
+  first loop.  Five more were caught on very few inputs: c58 (1 failing input at seeds 0 and 1, 5 at seed 2), c09 / c10 (8), c45 (10), c46 (8, the
+  corpus witnesses of ce3041e).
+* **Changes** (`harness/props/c18.py`, generators only): `world_family_case` (150 per quick run: 2-3 worlds do(A = a) + an irrelevant intervention each, V below A
+  in two worlds with equal / different values, another variable in the third; sometimes A observed), `mirrored_parent_case` (120: X observed factually,
+  worlds do(X = s, Z = t) and do(Z = t): Y@w1 has the intervened, Y@w2 the observed parent -- the only shape in which the unchanged code takes the mirrored
+  branch `elif b in event` of nodes_attain_same_value successfully, because has_same_confounders demands that an observed copy has NO bidirected edge at all,
+  which holds only after it was merged into the factual node), `both_observed_case` (120: both copies of a parent observed, equal / different values).
+  No oracle clause had to be added: every mutant whose shape was generated was reported by the existing clauses (probability of the relabelled event on 8
+  functional SCMs, 'inconsistent' => probability 0, structure, `check_parents_represented`, crash on an in-domain input).
+* **Round 2**: c44 caught with a replay (29 failing inputs: `relabelled event ... has another probability than the event: want 0`); c58 1 -> 48 failing inputs,
+  c09 / c10 8 -> 60, c45 10 -> 165, c11 46 -> 96, c18 48 -> 116.  The eight not-breaking mutants that were re-run stay silent or `correspondence only`.  Unchanged tree:
+  quick seeds 0, 1, 2 and the thorough tier (16 118 cases) exit 0 without a VIOLATION line and without a disagreement (the Lean model agrees on the new shapes).
+* **seeded/C18b**: measured on a scratch clone (tools/run_seeded.py creates a worktree of /repo, which this builder may not touch): caught with CONCRETE
+  replays, 116 failing inputs in the plain quick tier, 442 escalated (`node Y@{x}: the parent X of Y in the causal diagram is represented by 0 parent nodes
+  of the produced graph`).  The row of DESIGN 9.4 and the old `last_run.json` predate commit 0f35556, which gave the oracle the semantic reading of
+  "exactly the ancestors" (`check_parents_represented`); nothing further was needed, `seeded/C18b/last_run.json` was refreshed from the measurement.
+* **Timing** of the plain quick tier on the unchanged tree: 2 852 cases / 10.1 s wall before (machine idle), 3 242 cases after; CPU per run 30 s -> 49 s over 8
+  workers (`world_family_case` costs 100 ms per case: three worlds = six orders of the worlds set); 56-79 s wall were measured after the change with a machine
+  load of 80 on 16 cores, where the OLD tier took 33-57 s (the silent mutants of round 1).  Thorough: 272 s under the same load.
+* Not part of C18's statement, hence `outside-property` for C18 and measured on C07: the bidirected edges of the produced graph (c32, c51, c54, c55: all four
+  are `correspondence only` for C18 and caught with a replay by C07).  Fewer merges than Lemma 24 allows, another representative, the caller's dict (c37, silent)
+  are not decided by any clause either.
+
+### C07 (measured only: `harness/props/c07.py` belongs to builder cf5)
+
+24 breaking mutants were run on C07 (19 of id_star.py, 5 of cg.py).  21 caught with a replay in round 1; **3 timeouts** (c22, i08, i18); none silently missed after
+the two reclassifications below.
+
+* **c22, i08, i18 (timeout > 900 s)**: all three make id_star recurse without end on some inputs (line 6 re-creates the same district event).  Every such input
+  costs a full Python recursion-limit unwind per iteration order, and the shrinker repeats it.  Re-run with a 2 700 s limit, i08 IS caught: 5 VIOLATION lines
+  with replays (`value/line6/none`, `crash:RecursionError`, `IN-FRAGMENT` keys), 201 failing inputs, 1 120 s wall under load.  All three are killed by the pinned
+  suite.  *Proposed*: run the real call under `sys.setrecursionlimit(250)` in `_run_real` (the model's fuel bound 2|V| + |event| + 4 is far below), so a
+  non-terminating change fails fast; cap the shrinking of `crash:RecursionError` inputs.
+* **i19 (correspondence only), i20 (silent)** were expected to break C07 and do not on the current tree: they change the POLARITY OF A DISTRICT VALUE, which an
+  estimand of y0 cannot show (variables, not values) and which line 6 of the recursive call un-stars anyway (F10/M1).  i19 changes 5 of 2 028 inputs (estimand
+  -> Zero); on all 5 the unchanged id_star is already wrong (listed classes value/line6/M2, M3a): wrong -> wrong.  What this shows about the check: the finding
+  key of a located failure names the defect PATTERN PRESENT IN THE INPUT at the blamed step (`_local_class`: M1, M2, M3a ...), not the deviation that actually
+  occurred, so a second defect that only shows on inputs carrying a listed pattern moves failing inputs between listed classes (here value -> zero, both listed) and
+  is reported as `no-failing-input-found`.  *Proposed*: derive the district events of the blamed line-6 step independently from the paper (value of the event, else
+  the summation symbol; subscripts = pillow with the event's / self-intervention's value and polarity) and key the finding by the observed DIFFERENCE to what the
+  real `get_events_of_district` returned (`subscript-unstarred`, `copy-overwritten`, ...); a difference that is none of the listed ones (`value-of-summed-node-starred`
+  for i19) is then unlisted and becomes a VIOLATION with the input as replay.  Once F10 is repaired both mutants break C07 on ordinary inputs.
+
+### C08 (measured only: `harness/props/c08.py` belongs to builder cf5)
+
+18 breaking mutants of idc_star.py: 15 caught with a replay (d10 among them, which I had expected to be harmless), **3 `correspondence only`** (d05, d06, d23).
+
+* **d05, d06** (get_new_outcomes_and_conditions files a renamed key under the wrong side): 72 resp. 82 NEW failing inputs, every one keyed `["reassociation"]`,
+  the single coarse key of the known re-association defect (10 inputs on the unchanged tree, 98 / 126 with the mutants).  The pinned suite kills both
+  (test_get_new_outcomes_and_conditions), so they are not interesting as survivors, but the masking is real.  *Proposed*: split the key by what the step did
+  wrong, decided on the input: the listed defect is "a key of one side was merged into a variable that is ALREADY a key of the other side and disappears"
+  (no new key is filed); add to the key whether some missing key's representative in the relabelled event was an original key of the other side
+  (`reassociation:merged-into-other-side`, listed) and otherwise use `reassociation:new-key-misfiled` (never listed); the representative map is available from
+  the `make_counterfactual_graph` call that `_chain` already records, or semantically (same base, equal on the joint event in the sampled SCMs).
+* **d23** (exchanging Z also drops the conditions on other copies of Z; survives the pinned suite): ONE disagreement in 1 214 cases and no new failing input; on that
+  input (1 -> 0, P(V1 | V0_{1',2}, V0)) the unchanged code is already wrong in the listed class `exchange:separation`.  Two causes: (i) the generator almost never
+  puts two copies of one variable among the conditions together with an outcome to which rule 2 applies (*proposed*: a structured stream X -> Z -> Y [X <-> Y
+  optional], conditions Z and Z_x with equal / different values, outcome Y or Y_x; plus a third condition that is a collider); (ii) the change acts at an exchange
+  level with >= 2 conditions, and EVERY failure of such a level is listed (`exchange:conditions`, `exchange:separation`).  *Proposed*: before blaming the exchange,
+  compare the arguments of the recursive call with the canonical result of the step (`new_outcomes` with the subscript, `new_conditions` minus exactly the
+  exchanged key); a difference is the unlisted kind `exchange:arguments`.  I found no input on which d23 is wrong and the unchanged code right (whenever rule 2
+  as coded applies to Z, the outcomes are separated from every copy of Z except through Z's own out-edges, so the dropped condition is irrelevant unless another
+  condition opens a path -- the listed defect); it is kept as `breaking (unconfirmed)`.
+* d07, d19, d22 (`outside-property`: fewer exchanges) raise the number of failing inputs by 14 / 31 / 2: all `inherited` F10 failures of the un-exchanged quotient,
+  listed.
+
+### Pinned suite (tools/baseline.py, 387 tests) on 36 mutants
+
+Kills 26, lets 10 pass: **c44** (the round-1 miss), c45, c58, c11, c18, c46 (ce3041e reverted: the repair has no test in the pinned suite), i20, d09 (8a76512 reverted),
+d20, d23.  All of these except i20 (equivalent on the current tree) and d23 (above) are caught with a replay.
+
+No mutant revealed a new defect of the unchanged y0; two observations on incompleteness (not violations of C18): `nodes_attain_same_value` never accepts an observed
+counterfactual copy against an intervened one unless the observed copy lost all its bidirected edges by merging into the factual node, and C18's statement leaves
+the bidirected edges of the counterfactual graph undecided (they are decided downstream by C07).
 """.split("\n")
 
 # ---------------------------------------------------------------------------------------------------- running
